@@ -361,86 +361,91 @@ section stages
 open Shk.Conduct
 
 /-- the repaired `awaitStage` interrupts only on an error -/
-theorem awaitStage_interrupt_needs_error (own : Comp) (later : List Comp) (arrs : List Arrival)
-    (h : (awaitStage own later arrs).interrupt = true) : ∃ a ∈ arrs, a.err = true := by
-  induction arrs with
+theorem awaitStage_interrupt_needs_error (own : Comp) (later seen : List Comp) (arrs : List Arrival)
+    (h : (awaitStage own later seen arrs).interrupt = true) : ∃ a ∈ arrs, a.err = true := by
+  induction arrs generalizing seen with
   | nil => simp [awaitStage] at h
   | cons a rest ih =>
-    simp only [awaitStage] at h
-    by_cases h1 : a.comp = own
-    · simp [h1] at h
-    · simp only [h1, if_false] at h
-      by_cases h2 : later.contains a.comp = true
-      · simp only [h2, if_true] at h
-        by_cases h3 : a.err = true
-        · exact ⟨a, by simp, h3⟩
-        · simp only [h3, Bool.false_eq_true, if_false] at h
-          obtain ⟨b, hb, hbe⟩ := ih h
+    unfold awaitStage at h
+    split at h
+    · simp at h
+    · split at h
+      · simp at h
+      · split at h
+        · split at h
+          · rename_i h3; exact ⟨a, by simp, h3⟩
+          · obtain ⟨b, hb, hbe⟩ := ih _ h
+            exact ⟨b, by simp [hb], hbe⟩
+        · obtain ⟨b, hb, hbe⟩ := ih _ (by simpa using h)
           exact ⟨b, by simp [hb], hbe⟩
-      · simp only [h2, Bool.false_eq_true, if_false] at h
-        obtain ⟨b, hb, hbe⟩ := ih h
-        exact ⟨b, by simp [hb], hbe⟩
 
-private theorem awaitStage_rest_sub (own : Comp) (later : List Comp) (arrs : List Arrival) :
-    ∀ a ∈ (awaitStage own later arrs).rest, a ∈ arrs := by
-  induction arrs with
+private theorem awaitStage_rest_sub (own : Comp) (later seen : List Comp) (arrs : List Arrival) :
+    ∀ a ∈ (awaitStage own later seen arrs).rest, a ∈ arrs := by
+  induction arrs generalizing seen with
   | nil => simp [awaitStage]
   | cons a rest ih =>
-    simp only [awaitStage]
-    by_cases h1 : a.comp = own
-    · simp only [h1, if_true]; intro b hb; simp [hb]
-    · simp only [h1, if_false]
-      by_cases h2 : later.contains a.comp = true
-      · simp only [h2, if_true]
-        by_cases h3 : a.err = true
-        · simp only [h3, if_true]; intro b hb; simp [hb]
-        · simp only [h3, Bool.false_eq_true, if_false]; intro b hb; simp [ih b hb]
-      · simp only [h2, Bool.false_eq_true, if_false]
-        intro b hb
-        simp only [List.mem_cons] at hb ⊢
-        rcases hb with hb | hb
-        · exact Or.inl hb
-        · exact Or.inr (ih b hb)
+    unfold awaitStage
+    split
+    · intro b hb; exact hb
+    · split
+      · intro b hb; simp [hb]
+      · split
+        · split
+          · intro b hb; simp [hb]
+          · intro b hb; simp [ih _ b hb]
+        · intro b hb
+          simp only [List.mem_cons] at hb ⊢
+          rcases hb with hb | hb
+          · exact Or.inl hb
+          · exact Or.inr (ih _ b hb)
 
-/-- **Whatever order the runtime lets the conductor see the components' results in**: if no
-component returned an error, the conductor never cancels the collector — the reports of the
-final round, still in the collector's channel, are not lost, so the verdict computed from them
-decides the exit status. -/
+/-- **Whatever order the runtime lets the conductor see the components' results in** (any list,
+of any length): if no component returned an error, the conductor never cancels the collector —
+the reports of the final round, still in the collector's channel, are not lost, so the verdict
+computed from them decides the exit status. -/
 theorem normal_cascade_never_cancels_collector (arrs : List Arrival)
     (h : ∀ a ∈ arrs, a.err = false) : (conduct arrs).cancelledCollector = false := by
-  have no_int : ∀ (own : Comp) (later : List Comp) (l : List Arrival), (∀ a ∈ l, a.err = false) →
-      (awaitStage own later l).interrupt = false := by
-    intro own later l hl
-    cases hi : (awaitStage own later l).interrupt
+  have no_int : ∀ (own : Comp) (later seen : List Comp) (l : List Arrival), (∀ a ∈ l, a.err = false) →
+      (awaitStage own later seen l).interrupt = false := by
+    intro own later seen l hl
+    cases hi : (awaitStage own later seen l).interrupt
     · rfl
-    · obtain ⟨a, ha, hae⟩ := awaitStage_interrupt_needs_error own later l hi
+    · obtain ⟨a, ha, hae⟩ := awaitStage_interrupt_needs_error own later seen l hi
       rw [hl a ha] at hae; cases hae
   simp only [conduct, conductWith]
-  have h1 := no_int .pr [.sp, .au, .col] arrs h
-  have hr1 : ∀ a ∈ (awaitStage .pr [.sp, .au, .col] arrs).rest, a.err = false :=
-    fun a ha => h a (awaitStage_rest_sub _ _ _ a ha)
-  have h2 := no_int .sp [.au, .col] _ hr1
-  have hr2 : ∀ a ∈ (awaitStage .sp [.au, .col] (awaitStage .pr [.sp, .au, .col] arrs).rest).rest, a.err = false :=
-    fun a ha => hr1 a (awaitStage_rest_sub _ _ _ a ha)
-  have h3 := no_int .au [.col] _ hr2
-  simp [h1, h2, h3]
+  have h1 := no_int .pr [.sp, .au, .col] [] arrs h
+  have hr1 : ∀ a ∈ (awaitStage .pr [.sp, .au, .col] [] arrs).rest, a.err = false :=
+    fun a ha => h a (awaitStage_rest_sub _ _ _ _ a ha)
+  have h2 := no_int .sp [.au, .col] (awaitStage .pr [.sp, .au, .col] [] arrs).seen _ hr1
+  have hr2 : ∀ a ∈ (awaitStage .sp [.au, .col] (awaitStage .pr [.sp, .au, .col] [] arrs).seen
+      (awaitStage .pr [.sp, .au, .col] [] arrs).rest).rest, a.err = false :=
+    fun a ha => hr1 a (awaitStage_rest_sub _ _ _ _ a ha)
+  have h3 := no_int .au [.col] (awaitStage .sp [.au, .col] (awaitStage .pr [.sp, .au, .col] [] arrs).seen
+      (awaitStage .pr [.sp, .au, .col] [] arrs).rest).seen _ hr2
+  split
+  · rfl
+  · rw [h1]
+    simp only [Bool.false_eq_true, if_false]
+    split
+    · rfl
+    · rw [h2]
+      simp only [Bool.false_eq_true, if_false]
+      split
+      · rfl
+      · rw [h3]
+        simp
 
-/-- an error that is seen is never dropped by the stages -/
-theorem interrupt_keeps_error (own : Comp) (later : List Comp) (arrs : List Arrival)
-    (h : (awaitStage own later arrs).interrupt = true) : (awaitStage own later arrs).err = true := by
-  induction arrs with
-  | nil => simp [awaitStage] at h
-  | cons a rest ih =>
-    simp only [awaitStage] at h ⊢
-    by_cases h1 : a.comp = own
-    · simp [h1] at h
-    · simp only [h1, if_false] at h ⊢
-      by_cases h2 : later.contains a.comp = true
-      · simp only [h2, if_true] at h ⊢
-        by_cases h3 : a.err = true
-        · simp [h3]
-        · simp only [h3, Bool.false_eq_true, if_false] at h ⊢; exact ih h
-      · simp only [h2, Bool.false_eq_true, if_false] at h ⊢; exact ih h
+/-- the 384 schedules are exactly: each of the four components reports once, in some order,
+each with or without an error -/
+theorem schedules_complete : schedules.length = 384 ∧ schedules.all complete = true := by decide +kernel
+
+/-- **the stages never block and never lose an error**: in every one of the 384 schedules the
+conductor gets through all four stages (or interrupts), and if any component returned an error
+the conductor returns an error. -/
+theorem stages_terminate_and_keep_errors :
+    schedules.all (fun arrs => !(conduct arrs).blocked &&
+      ((conduct arrs).err == arrs.any (·.err)) &&
+      ((conduct arrs).cancelledCollector == false || arrs.any (·.err))) = true := by decide +kernel
 
 /-- **the pinned rule lost the final round**: prompter done, then the audition's nil result is
 seen before the spotlights' nil result — a legal order, since the audition stops as soon as the
@@ -449,10 +454,15 @@ theorem old_rule_cancels_collector_in_normal_cascade :
     (conductOld [⟨.pr, false⟩, ⟨.au, false⟩, ⟨.sp, false⟩, ⟨.col, false⟩]).cancelledCollector = true := by
   decide
 
+/-- how many of the 24 error-free orders the pinned rule got wrong -/
+theorem old_rule_wrong_orders :
+    ((perms [Comp.pr, .sp, .au, .col]).filter fun o =>
+      (conductOld (o.map fun c => ⟨c, false⟩)).cancelledCollector).length = 23 := by decide
+
 /-- the same schedule under the repaired rule -/
-example : (conduct [⟨.pr, false⟩, ⟨.au, false⟩, ⟨.sp, false⟩, ⟨.col, false⟩]) = ⟨false, false⟩ := by decide
+example : (conduct [⟨.pr, false⟩, ⟨.au, false⟩, ⟨.sp, false⟩, ⟨.col, false⟩]) = ⟨false, false, false⟩ := by decide
 /-- and a genuine failure still interrupts -/
-example : (conduct [⟨.au, true⟩, ⟨.pr, false⟩]) = ⟨true, true⟩ := by decide
+example : (conduct [⟨.au, true⟩, ⟨.pr, false⟩, ⟨.sp, false⟩, ⟨.col, false⟩]) = ⟨true, true, false⟩ := by decide
 
 end stages
 
